@@ -291,10 +291,14 @@ class Melody(events_lib.SimpleEventSequence):
         quantized_sequence.quantization_info.steps_per_quarter)
 
     # Sort track by note start times, and secondarily by pitch descending.
+    # Notes of one pitch that land on the same step are ordered by their
+    # unquantized start time so that the result does not depend on the order in
+    # which the notes are stored.
     notes = sorted([n for n in quantized_sequence.notes
                     if n.instrument == instrument and
                     n.quantized_start_step >= search_start_step],
-                   key=lambda note: (note.quantized_start_step, -note.pitch))
+                   key=lambda note: (note.quantized_start_step, -note.pitch,
+                                     note.start_time))
 
     if not notes:
       return
